@@ -464,18 +464,165 @@ def p_int_points(x, y, a, b):
     doubling and adding must not assume FieldElement coordinates (regression for 5b941e6)"""
     from buidl.pecc import Point
     P = Point(x, y, a, b)
-    Q = P + P
-    if Q.x is not None and Q.y ** 2 != Q.x ** 3 + a * Q.x + b:
-        return "P + P over the integers is not on the curve"
+    if y == 0 or (3 * x * x + a) % (2 * y) == 0:
+        # only when the tangent slope is an integer: `/` on ints is float division, an inexact slope makes the
+        # constructor's membership test fail by rounding (no statement of the property covers that)
+        Q = P + P
+        if Q.x is not None and Q.y ** 2 != Q.x ** 3 + a * Q.x + b:
+            return "P + P over the integers is not on the curve"
     R = Point(x, -y, a, b)
     if (P + R).x is not None:
         return "P + (-P) over the integers is not the point at infinity"
     return None
 
 
+# ---- state kept across calls on one object (a memoised value that goes stale, an operand changed in place)
+
+
+def p_fe_reuse(p, p2):
+    """ONE FieldElement object e and ONE operand object o for the whole sweep: e.num and o.num are set in place to
+    every pair of F_p, every operator is applied, and the answer must be arithmetic mod p on the CURRENT values;
+    operators must leave both operands as they were.  Then e.prime / o.prime are set in place to p2 and a
+    diagonal band of pairs is swept again."""
+    e, o = FE(0, p), FE(0, p)
+    for q, pairs in ((p, [(a, b) for a in range(p) for b in range(p)]),
+                     (p2, [(a % p2, (a * 7 + d) % p2) for a in range(p2) for d in (0, 1, 3)])):
+        e.prime = o.prime = q
+        for a, b in pairs:
+            e.num, o.num = a, b
+            got = [(e + o).num, (e - o).num, (e * o).num, (e ** b).num, (e ** -b).num if a else 0, (b * e).num,
+                   e == o, e != o, (o + e).num, (o - e).num]
+            want = [(a + b) % q, (a - b) % q, a * b % q, pow(a, b, q), pow(a, (-b) % (q - 1), q) if a else 0, a * b % q,
+                    a == b, a != b, (a + b) % q, (b - a) % q]
+            if b:
+                got.append((e / o).num)
+                want.append(a * pow(b, q - 2, q) % q)
+            if got != want:
+                i = [g == w for g, w in zip(got, want)].index(False)
+                return (f"F_{q}: operator #{i} on the reused objects set in place to {a}, {b} gives {got[i]}, "
+                        f"arithmetic mod {q} gives {want[i]}")
+            if (e.num, e.prime, o.num, o.prime) != (a, q, b, q):
+                return f"F_{q}: an operator changed its operands ({a}, {b})"
+    return None
+
+
+def _set_pt(pt, A, p, fresh):
+    """put the coordinates of A (None = infinity) into the point object in place"""
+    if A is None:
+        pt.x = pt.y = None
+    elif fresh or pt.x is None:
+        pt.x, pt.y = FE(A[0], p), FE(A[1], p)
+    else:
+        # keep the coordinate objects (never shared between the two operands), change their value
+        pt.x.num, pt.y.num = A[0], A[1]
+
+
+def p_pt_reuse_small(p, a, b):
+    """ONE generic Point object and ONE operand object on y^2 = x^3 + a x + b over F_p: their x, y are set in
+    place to every pair of curve points (infinity included) and pt + qt, qt + pt, k * pt must be the reference
+    result for the CURRENT coordinates; operands must be left unchanged."""
+    fa, fb = FE(a, p), FE(b, p)
+    pts = ref_points(p, a, b)
+    pt, qt = Point(None, None, fa, fb), Point(None, None, fa, fb)
+    n = 0
+    for A in pts:
+        for B in pts:
+            n += 1
+            _set_pt(pt, A, p, n % 2)
+            _set_pt(qt, B, p, n % 3)
+            for (u, v, U, V) in ((pt, qt, A, B), (qt, pt, B, A)):
+                R = _tup(u + v)
+                if R != ref_add(p, a, U, V):
+                    return f"F_{p}: reused objects set in place to {U}, {V}: sum {R}, reference {ref_add(p, a, U, V)}"
+            k = (n * 5 + 1) % (len(pts) + 3)
+            R = _tup(k * pt)
+            if R != ref_mul(p, a, k, A):
+                return f"F_{p}: {k} * (object set in place to {A}) = {R}, reference {ref_mul(p, a, k, A)}"
+            if _tup(pt) != A or _tup(qt) != B:
+                return f"F_{p}: an operation changed its operands {A}, {B}"
+    return None
+
+
+def p_s256_reuse(k, j, ks, ts):
+    """ONE S256Point object Pt = kG (and the module's G, and ONE other point Qt = jG) through a call history:
+    encodings asked in different orders, c * Pt for the scalars ks in order (repeats included) interleaved with
+    the same c on G and Qt, Pt + Qt / Qt + Pt / Pt + G / Pt + Pt / Pt + (-Pt), Pt + t for the ints ts; every
+    answer equals the Jacobian reference, and Pt, Qt, G are unchanged after every operation."""
+    G = pecc.G
+    A, B = j_mul(k, (GX, GY)), j_mul(j, (GX, GY))
+    Pt, Qt = _sp(A), _sp(B)
+    xb, yb = A[0].to_bytes(32, "big"), A[1].to_bytes(32, "big")
+    want_enc = {"c": bytes([2 + (A[1] & 1)]) + xb, "u": b"\x04" + xb + yb, "x": xb}
+
+    def intact(where):
+        if _tup(Pt) != A or _tup(Qt) != B or _tup(G) != (GX, GY) or Pt.parity != (A[1] & 1) or G.parity != (GY & 1):
+            return f"{where} changed one of its operands (or the module's G)"
+        for tag in ("c", "x", "u", "x", "c"):
+            enc = Pt.sec(True) if tag == "c" else Pt.sec(False) if tag == "u" else Pt.xonly()
+            if enc != want_enc[tag]:
+                return f"after {where}: encoding '{tag}' of the reused point is {enc.hex()}, expected {want_enc[tag].hex()}"
+        return None
+
+    bad = intact("construction")
+    if bad:
+        return bad
+    for step, c in enumerate(ks):
+        for nm, obj, tup in (("Pt", Pt, A), ("G", G, (GX, GY)), ("Qt", Qt, B))[: 3 if step % 2 == 0 else 1]:
+            R = _tup(c * obj)
+            if R != j_mul(c, tup):
+                return f"call {step}: {c} * {nm} in a call history gives {R}, Jacobian reference {j_mul(c, tup)}"
+        bad = intact(f"{c} * P")
+        if bad:
+            return bad
+    negA = (A[0], P - A[1])
+    for nm, u, v, U, V in (("Pt+Qt", Pt, Qt, A, B), ("Pt+G", Pt, G, A, (GX, GY)), ("Qt+Pt", Qt, Pt, B, A),
+                           ("Pt+Pt", Pt, Pt, A, A), ("Pt+(-Pt)", Pt, _sp(negA), A, negA), ("G+Pt", G, Pt, (GX, GY), A),
+                           ("Pt+Qt again", Pt, Qt, A, B)):
+        R = _tup(u + v)
+        if R != j_aff(j_add(j_of(U), j_of(V))):
+            return f"{nm} in a call history gives {R}, Jacobian reference differs"
+    bad = intact("point additions")
+    if bad:
+        return bad
+    for step, t in enumerate(ts):
+        R = _tup(Pt + t)
+        if R != j_mul(k + t, (GX, GY)):
+            return f"call {step}: Pt + {t} (int shorthand) in a call history differs from (k + t)G"
+    ev = Pt.even_point()
+    if _tup(ev) != (A[0], A[1] if A[1] % 2 == 0 else P - A[1]):
+        return "even_point of the reused point"
+    return intact("int additions")
+
+
+def p_parse_history(encs):
+    """module-level decoders called with different strings in turn (a memo keyed too coarsely — by x only, by
+    length, by the first call — shows here): forwards and backwards, every answer equals the strict decoder's"""
+    for rnd, seq in enumerate((encs, encs[::-1])):
+        for step, b in enumerate(seq):
+            want = spec_decode(b)
+            fns = [("parse", S256Point.parse)]
+            if len(b) in (33, 65):
+                fns.append(("parse_sec", S256Point.parse_sec))
+            if len(b) == 32:
+                fns.append(("parse_xonly", S256Point.parse_xonly))
+            for nm, f in fns:
+                try:
+                    got = ("pt", _tup(f(b)))
+                except Exception:  # noqa
+                    got = "reject"
+                if got != want:
+                    return f"round {rnd} call {step}: {nm}({b.hex()}) gives {got}, a strict decoder gives {want}"
+            if want != "reject" and len(b) != 32:
+                pt = S256Point.parse(b)
+                if pt.sec(len(b) == 33) != b or pt.parity != (want[1][1] & 1):
+                    return f"round {rnd} call {step}: the point parsed from {b.hex()} re-encodes differently"
+    return None
+
+
 PROPS = {"int_points": p_int_points, "field_axioms": p_field_axioms, "small_curve": p_small_curve, "group_ids": p_group_ids,
          "point_laws": p_point_laws, "scalar": p_scalar, "sec_rt": p_sec_rt, "parse": p_parse,
-         "double_y0": p_double_y0}
+         "double_y0": p_double_y0, "fe_reuse": p_fe_reuse, "pt_reuse_small": p_pt_reuse_small,
+         "s256_reuse": p_s256_reuse, "parse_history": p_parse_history}
 
 
 def classify(v):
@@ -519,6 +666,44 @@ def generate(ctx):
     yield from _generate(ctx)
     for (x, y, a, b) in [(-1, -1, 5, 7), (-1, 1, 5, 7), (2, 5, 5, 7), (3, -7, 5, 7), (18, 77, 5, 7)]:
         yield ("prop", "int_points", [x, y, a, b])
+    yield from _generate_reuse(ctx)
+
+
+def _generate_reuse(ctx):
+    """state kept across calls: one object through a history of calls and in-place edits"""
+    r = ctx.rng
+    thorough = ctx.tier == "thorough"
+    for p, p2 in [(3, 5), (5, 3), (7, 11), (11, 7), (13, 31), (31, 13)] + ([(43, 47), (97, 101), (223, 229)] if thorough else []):
+        ctx.label("reuse/field-element-set-in-place")
+        yield ("prop", "fe_reuse", [p, p2])
+    for p in [5, 11, 13, 17, 19, 23] + ([29, 31, 37, 41, 43, 47, 61, 67] if thorough else [43]):
+        ctx.label("reuse/small-curve-point-set-in-place")
+        yield ("prop", "pt_reuse_small", [p, 0, 7 % p])
+        a, b = r.randrange(p), r.randrange(p)
+        if (4 * a ** 3 + 27 * b * b) % p:
+            yield ("prop", "pt_reuse_small", [p, a, b])
+    for i in range(ctx.n(3, 40)):
+        k, j = r.randrange(1, N), r.randrange(1, N)
+        c1, c2 = rscalar(r), r.randrange(1, N)
+        ks = [c1, c2, c1, r.choice([0, 1, 2, N - 1, N, N + 1, -1]), c2, c1 + N]
+        t1 = r.randrange(1, N)
+        ts = [t1, r.choice([0, 1, N - 1, N, -k, N - k]), t1, rscalar(r)]
+        ctx.label("reuse/one-secp-point-many-operations")
+        yield ("prop", "s256_reuse", [k, j, ks, ts])
+    for i in range(ctx.n(6, 100)):
+        encs = []
+        for _ in range(r.randrange(2, 4)):
+            A = j_mul(r.randrange(1, N), (GX, GY))
+            xb, yb, nyb = A[0].to_bytes(32, "big"), A[1].to_bytes(32, "big"), (P - A[1]).to_bytes(32, "big")
+            x = A[0]
+            while lift(x, False) is not None:
+                x = (x + 1) % P
+            ob = x.to_bytes(32, "big")
+            encs += [b"\x02" + xb, b"\x03" + xb, xb, b"\x04" + xb + yb, b"\x04" + xb + nyb, b"\x06" + xb + yb,
+                     b"\x02" + ob, b"\x03" + ob, ob, b"\x04" + ob + yb, b"\x02" + xb, b"\x05" + xb, b"\x04" + xb + xb]
+        r.shuffle(encs)
+        ctx.label("reuse/decoder-call-history")
+        yield ("prop", "parse_history", [encs])
 
 
 def _generate(ctx):
